@@ -50,6 +50,7 @@ def TB.assign (b : TB) (vs : List Offered) (boom : Option Nat) : TB × Bool :=
 inductive Key where
   | idx (i : Int)
   | label (l : Nat)
+  | item (pos : Nat)      -- the item object that iteration yields at position pos (pos ≥ length: an object the block does not hold)
   | other
   deriving DecidableEq, Repr
 
@@ -71,8 +72,21 @@ def firstWithLabel (labels : List Nat) (l : Nat) : Option Nat := labels.findIdx?
 def getItem (labels : List Nat) : Key → LookOut
   | .idx i => match pyIndex labels.length i with | some p => .item p | none => .indexError
   | .label l => match firstWithLabel labels l with | some p => .item p | none => .keyError
+  | .item _ => .typeError
   | .other => .typeError
 
 def containsLabel (labels : List Nat) (l : Nat) : Bool := labels.any (· == l)
+
+/-- `key in block`: labels and item objects are answered, every other kind of key raises TypeError
+    (tdfData3D.py:335-340, tdfForce3D.py:331-336, tdfEMG.py:190-196, tdfEvents.py:130-136) -/
+inductive InOut where
+  | yes | no | typeError
+  deriving DecidableEq, Repr
+
+def memberOf (labels : List Nat) : Key → InOut
+  | .label l => if containsLabel labels l then .yes else .no
+  | .item p => if p < labels.length then .yes else .no
+  | .idx _ => .typeError
+  | .other => .typeError
 
 end Tdf
